@@ -28,7 +28,7 @@ VARIABLES l, cnt
 vars == <<l, cnt>>
 
 Zero == [ext |-> 0, regular |-> 0, degenerate |-> 0, reject |-> 0, refused |-> 0, closedpath |-> 0, planes |-> 0,
-         radii |-> 0, zerorings |-> 0, tris |-> 0, rep |-> 0, placed |-> 0, copies |-> 0, reprefused |-> 0]
+         radii |-> 0, zerorings |-> 0, outward |-> 0, tris |-> 0, rep |-> 0, placed |-> 0, copies |-> 0, reprefused |-> 0]
 Init == l = 1 /\ cnt = Zero
 
 IndexOK(ln) ==
@@ -71,6 +71,7 @@ ExtBad(ln) ==
             IN If(StripsOK(c, TL), "X06.Strips")
                \cup If(Oriented(TL), "X06.Oriented")
                \cup If(ClosedAsStated(c, TL), "X06.Closed")
+               \cup If(~(c.gen \in PolyFamily /\ StripsOK(c, TL)) \/ OutwardOK(c, TL, ln.pos), "X06.Outward")
                \cup Geometry(c, ln.pos)
 
 B(x) == IF x THEN 1 ELSE 0
@@ -85,6 +86,8 @@ ExtCount(ln) ==
                    !.radii = @ + (IF reg /\ (c.gen \in PolyFamily \/ c.gen \in ShapeFamily) THEN NRings(c) ELSE 0),
                    !.zerorings = @ + (IF reg /\ c.gen \in PolyFamily
                                       THEN Cardinality({k \in Rings(c) : Thick(c, k) = 0}) ELSE 0),
+                   !.outward = @ + (IF reg /\ c.gen \in PolyFamily /\ Basic(ln) /\ CountsBad(c, ln) = {}
+                                    THEN OutwardJudged(c, LTris(c, ln.tris), ln.pos) ELSE 0),
                    !.tris = @ + Len(ln.tris)]
 
 (* ------------------------- repeat ------------------------------------- *)
